@@ -1,0 +1,83 @@
+//go:build verif
+
+// Contracts for package recordlayer (comment-only; read by /verif/vc).
+package recordlayer
+
+// RFC 6347 4.1 / RFC 9146 4: type(1) version(2) epoch(2) sequence(6) [cid] length(2).
+
+//@ func Header.Marshal
+//@ ensures overflow: old(h.SequenceNumber) > 0x0000FFFFFFFFFFFF ==> result1 != nil
+//@ ensures ok: old(h.SequenceNumber) <= 0x0000FFFFFFFFFFFF ==> result1 == nil
+//@ ensures size: result1 == nil ==> len(result0) == 13 + len(h.ConnectionID)
+//@ ensures layout-type: result1 == nil ==> result0[0] == byte(h.ContentType)
+//@ ensures layout-version: result1 == nil ==> result0[1] == h.Version.Major && result0[2] == h.Version.Minor
+//@ ensures layout-epoch: result1 == nil ==> result0[3] == byte(h.Epoch >> 8) && result0[4] == byte(h.Epoch)
+//@ ensures layout-seq: result1 == nil ==> result0[5] == byte(h.SequenceNumber >> 40) && result0[6] == byte(h.SequenceNumber >> 32)
+//@    && result0[7] == byte(h.SequenceNumber >> 24) && result0[8] == byte(h.SequenceNumber >> 16)
+//@    && result0[9] == byte(h.SequenceNumber >> 8) && result0[10] == byte(h.SequenceNumber)
+//@ ensures layout-cid: result1 == nil ==> forall(0, len(h.ConnectionID), func(i int) bool { return result0[11+i] == h.ConnectionID[i] })
+//@ ensures layout-len: result1 == nil ==> result0[len(result0)-2] == byte(h.ContentLen >> 8) && result0[len(result0)-1] == byte(h.ContentLen)
+//@ ensures frame: h.SequenceNumber == old(h.SequenceNumber) && h.Epoch == old(h.Epoch) && h.ContentLen == old(h.ContentLen)
+//@ end
+
+//@ func Header.Unmarshal
+//@ ensures short: len(data) < 13 ==> result != nil
+//@ ensures type: len(data) >= 13 ==> h.ContentType == protocol.ContentType(data[0])
+//@ ensures version: result == nil ==> h.Version.Major == data[1] && h.Version.Minor == data[2]
+//@ ensures epoch: result == nil ==> h.Epoch == uint16(data[3])<<8 | uint16(data[4])
+//@ ensures seq: result == nil ==> h.SequenceNumber == uint64(data[5])<<40 | uint64(data[6])<<32 | uint64(data[7])<<24 | uint64(data[8])<<16 | uint64(data[9])<<8 | uint64(data[10])
+//@ ensures seq48: result == nil ==> h.SequenceNumber <= 0x0000FFFFFFFFFFFF
+//@ ensures cid: result == nil && data[0] == 25 ==> len(h.ConnectionID) == len(old(h.ConnectionID)) && len(data) >= 13 + len(h.ConnectionID)
+//@    && forall(0, len(h.ConnectionID), func(i int) bool { return h.ConnectionID[i] == data[11+i] })
+//@ ensures nocid: result == nil && data[0] != 25 ==> h.ConnectionID == nil
+//@ ensures len: result == nil ==> h.ContentLen == uint16(data[11+len(h.ConnectionID)])<<8 | uint16(data[12+len(h.ConnectionID)])
+//@ ensures versions: result == nil ==> h.Version.Major == 254 && (h.Version.Minor == 255 || h.Version.Minor == 253)
+//@ end
+
+// Datagram splitting helpers: offsets are positions inside buf; the configured CID length is a length.
+
+//@ func ContentAwareUnpackDatagram
+//@ requires cid-len: cidLength >= 0 && cidLength <= 255
+//@ end
+
+//@ func UnpackDatagram13
+//@ requires cid-len: cidLength >= 0 && cidLength <= 255
+//@ end
+
+//@ func unpackPlaintextDatagram13Record
+//@ inline
+//@ requires offset-in-buf: 0 <= offset && offset <= len(buf)
+//@ end
+
+//@ func unpackCiphertextDatagramRecord
+//@ inline
+//@ requires offset-in-buf: 0 <= offset && offset < len(buf)
+//@ requires cid-len: cidLength >= 0 && cidLength <= 255
+//@ end
+
+//@ func unmarshalCiphertextDatagramHeader
+//@ inline
+//@ requires nonempty: len(data) >= 1
+//@ requires cid-len: cidLength >= 0 && cidLength <= 255
+//@ end
+
+//@ func unpackCiphertextDatagram13RecordWithoutLength
+//@ inline
+//@ requires offset-in-buf: 0 <= offset && offset <= len(buf)
+//@ end
+
+//@ func unpackCiphertextDatagram13RecordWithLength
+//@ inline
+//@ requires offset-in-buf: 0 <= offset && offset <= len(buf)
+//@ requires header-size: 0 <= headerSize && headerSize <= 512
+//@ end
+
+//@ func isMismatchedCiphertextCID
+//@ inline
+//@ requires out-param: firstCID != nil
+//@ end
+
+//@ func unmarshalPlaintextRecord13Header
+//@ inline
+//@ requires out-param: header != nil
+//@ end
